@@ -19,3 +19,4 @@ func verifReach(label string)
 func verifThorough() bool
 func verifConfig(key string, val int)
 func verifIdealHash()
+func verifNote(label string, v any)
